@@ -7,7 +7,7 @@ import re
 
 from . import rustscan as rs
 
-DEFAULT_RULES = {'R1', 'R2', 'R5', 'R6', 'R7', 'R14', 'R15'}
+DEFAULT_RULES = {'R1', 'R2', 'R5', 'R6', 'R7', 'R14', 'R15', 'R16'}
 
 
 class Refuse(Exception):
@@ -152,6 +152,25 @@ def rule_R14(text, fired):
     return text
 
 
+# ---- R16: string-literal conversion ------------------------------------------------------------
+def rule_R16(text, fired):
+    toks = rs.tokenize(text)
+    out = []
+    i = 0
+    n = len(toks)
+    while i < n:
+        t = toks[i]
+        if t.kind == 'str' and not t.text.startswith('b') and i + 4 < n and toks[i + 1].text == '.' and toks[i + 2].text == 'into' \
+                and toks[i + 3].text == '(' and toks[i + 4].text == ')':
+            out.append(f'str_lit_into({t.text})')
+            _count(fired, 'R16')
+            i += 5
+            continue
+        out.append(t.text)
+        i += 1
+    return ''.join(out)
+
+
 # ---- R15: float constants --------------------------------------------------------------------
 def rule_R15(text, fired):
     for const, fn in (('NEG_INFINITY', 'f64_neg_infinity()'), ('INFINITY', 'f64_infinity()'), ('NAN', 'f64_nan()')):
@@ -161,6 +180,7 @@ def rule_R15(text, fired):
 
 
 RULES = {
+    'R16': rule_R16,
     'R15': rule_R15,
     'R14': rule_R14,
     'R5': rule_R5b,
@@ -170,7 +190,7 @@ RULES = {
     'R9': rule_R9,
     'R13': rule_R13,
 }
-ORDER = ['R2', 'R9', 'R6', 'R7', 'R13', 'R14', 'R15', 'R5']
+ORDER = ['R2', 'R9', 'R6', 'R7', 'R13', 'R14', 'R15', 'R16', 'R5']
 
 
 def apply_rules(text, active, fired, extra_subs=()):
